@@ -138,5 +138,12 @@ Theorem C15_explicit_start_writes_the_marker : forall first explicit version tag
 Proof. exact EmitMarkers.explicit_documents_get_their_marker. Qed.
 Eval vm_compute in "ASSUME:C15_explicit_start_writes_the_marker"%string. Print Assumptions C15_explicit_start_writes_the_marker.
 
+(* KIND C15_canonical_scalars_are_double_quoted : U *)
+(* canonical=True: every scalar is written double-quoted - whatever its text, the style asked for by the event, the implicit flags and the context *)
+Theorem C15_canonical_scalars_are_double_quoted : forall impl0 v style s, canonical s = true ->
+  exists s', choose_scalar_style impl0 v style s = Ok (ChDouble, s') /\ canonical s' = true /\ out s' = out s.
+Proof. exact EmitMarkers.canonical_scalars_are_double_quoted. Qed.
+Eval vm_compute in "ASSUME:C15_canonical_scalars_are_double_quoted"%string. Print Assumptions C15_canonical_scalars_are_double_quoted.
+
 (* PARTIAL: the %TAG directive chunks and the absence of markers in implicit documents (markers_and_directives), result_type, output_rereadable_chars and canonical_parse are not proved on the
    emitter model; decided by the exact-text emitter correspondence and the direct text-level checker over the option product (both emitters). *)
